@@ -85,19 +85,23 @@ impl Check for C09 {
     }
     fn decode(&self, tape: &[u8], _stream: usize) -> Value {
         let mut t = Tape::new(tape);
-        let file = *t.pick(&["/app/src/gen.js", "gen.js", "/a b/ñ/gen file.js", "./rel/x.y.js", "C:\\\\dir\\\\win.js", "/deep/a/b/c/d/e.mjs", "noext", "/app/lib/issue#12.js", "/app/c#/string-utils.js", "/app/a.mjs?iitm=true", "/app/%41/b c.js"]);
+        let file = *t.pick(&["/app/src/gen.js", "gen.js", "/a b/ñ/gen file.js", "./rel/x.y.js", "C:\\\\dir\\\\win.js", "/deep/a/b/c/d/e.mjs", "noext", "/app/lib/issue#12.js", "/app/c#/string-utils.js", "/app/a.mjs?iitm=true", "/app/%41/b c.js", "/app/back\\slash.js", "/app/qu\"ote\\x.js", "/app/caf\u{e9}/\u{540d}\u{524d}.js", "/app/tab\there.js"]);
         let comments = t.flag();
+        // the input carries no map reference: with chaining on, the plain rewrite map must be emitted all the same
+        let chain = t.flag();
+        // an earlier rewrite on the same thread (a file that is not modified and refers to a map of its own) must not matter
+        let warmup = t.chance(60);
         let mut cfg = gen_cfg(&mut t, &CfgOpts { fixed_prefix: true, rich: true });
         let mut j = cfg.json.clone();
         j["comments"] = json!(comments);
-        j["chainSourceMap"] = json!(false);
+        j["chainSourceMap"] = json!(chain);
         cfg = info_from_json(&j);
         let mut o = opts_for(&cfg, false);
         o.allow_module = true;
         o.layout_noise = true;
         let p = gen_program_t(&mut t, &o);
         let tags: Vec<&str> = p.tags.iter().copied().collect();
-        json!({"src": p.src, "cfg": cfg.json, "file": file, "tags": tags})
+        json!({"src": p.src, "cfg": cfg.json, "file": file, "tags": tags, "warmup": warmup})
     }
     fn rule(&self) -> String {
         "programs with layout noise (multi-line operands, operators at line ends, CRLF, tabs, non-ASCII BMP and astral characters in comments/strings, hashbang) x any \
@@ -115,7 +119,14 @@ impl Check for C09 {
     }
     fn eval(&self, case: &Value, _ctx: &mut Ctx) -> Outcome {
         let (src, cfg, file) = case_parts(case);
-        let classes = tags_of(case);
+        let mut classes = tags_of(case);
+        if case["warmup"] == json!(true) {
+            // same thread, same configuration: a file that stays unmodified and carries an inline map of its own
+            let decoy_map = r#"{"version":3,"sources":["decoy.ts"],"names":[],"mappings":"AAAA;AACA"}"#;
+            let decoy = format!("var k = 1;\n//# sourceMappingURL=data:application/json;base64,{}\n", smap::encode_base64(decoy_map.as_bytes()));
+            let _ = rw::rewrite_simple(&cfg.json, &decoy, "/app/src/decoy.js");
+            classes.push("warm-up rewrite before".into());
+        }
         let outcome = rw::rewrite_simple(&cfg.json, &src, &file);
         match &outcome {
             rw::Outcome::Err(_) => return Outcome::skip("rewriter returned an error"),
